@@ -6,7 +6,9 @@
 package stores
 
 import (
+	"bytes"
 	"fmt"
+	"io"
 	"net/http"
 	"net/http/httptest"
 	"os"
@@ -36,6 +38,9 @@ type Medium struct {
 	// error here is a connection that dies after the request was applied, before the
 	// response is read.
 	FailResponse func(r *http.Request) error
+	// CutBody, if set and true for a request, delivers the server's response with its body
+	// cut in half (status and headers intact): a download that ends early.
+	CutBody func(r *http.Request) bool
 	// Requests counts the requests that reached the server, by method.
 	Requests map[string]int
 	// SQLiteOpts are appended to the options of every SQLite open.
@@ -135,6 +140,12 @@ func (t transport) RoundTrip(r *http.Request) (*http.Response, error) {
 	}
 	resp := rec.Result()
 	resp.Request = r
+	if t.m.CutBody != nil && t.m.CutBody(r) {
+		b, _ := io.ReadAll(resp.Body)
+		resp.Body = io.NopCloser(bytes.NewReader(b[:len(b)/2]))
+		resp.ContentLength = -1
+		resp.Header.Del("Content-Length")
+	}
 	return resp, nil
 }
 
